@@ -5,7 +5,8 @@ Decided (operator level; the part of the statement whose truth is in the shape o
         Lt/Eq/Not apply exactly i64::checked_add/checked_sub/saturating_add/saturating_sub, `>`,
         `<`, Value's PartialEq and `!`; the left operand is the value popped second (pushed first),
         the right operand the value popped first; the result is what is pushed. Is/Wrap/Unwrap map
-        each WrapType to its own Value shape.
+        each WrapType to its own Value shape. RestoreSP discards every value above the saved stack
+        pointer (pop loop guarded by it, or a truncate at it) and keeps the return value.
  R2 K9  operator templates: for every comparison / logical / optional operator arm of
         compile_typed_expression (==, !=, >, <, >=, <=, !, &&, ||, `is Some/None`, `??`-coalescing,
         Some/None/Ok/Err constructors, if-expressions, literals) every linear emission template of
@@ -431,6 +432,7 @@ def compile_rules(F, rep):
 def run(F, rep, tier):
     rep.explanation = __doc__
     vm_rules(F, rep)
+    restore_sp_rule(F, rep)
     compile_rules(F, rep)
     lower_rules(F, rep)
     builtin_rules(F, rep)
@@ -669,3 +671,38 @@ def parser_rules(F, rep, repo):
         rep.check(m is not None and m.group(1) == tok, "grammar|%s" % r, "K7 table", "grammar rule %s is the token `%s`" % (r, tok),
                   "policy.pest defines rule `%s` as %s, the language writes this operator `%s`" % (r, ("`%s`" % m.group(1)) if m else "something other than a single token", tok),
                   "crates/aranya-policy-lang/src/lang/parse/policy.pest")
+
+
+def restore_sp_rule(F, rep):
+    """RestoreSP implements `return e` inside nested expressions: everything the abandoned expressions had
+    pushed above the saved stack pointer is discarded and only the return value is kept. Structurally: the
+    handler shrinks the stack down to the saved pointer - a pop loop guarded by `len > saved_sp`, or a
+    truncate/drain/split_off at saved_sp - and pushes the return value back. Removing a single element is not
+    enough when two or more temporaries are pending."""
+    step = F.fn("aranya_policy_vm::machine::RunState::step")
+    sws = step.discr_switches("instructions::Instruction")
+    outer = step.outer_switch(sws) if sws else None
+    if not outer or "RestoreSP" not in outer[1]:
+        rep.anchor_missing("RunState::step arm for RestoreSP")
+        return
+    reg = step.dominated_region(outer[1]["RestoreSP"])
+    saved = [c for c in step.calls if c.bb in reg and c.name == "pop" and "field:call_state" in step.origins(c.args[0], through_calls=())]
+    # (a) bulk shrink at saved_sp
+    bulk = [c for c in step.calls if c.bb in reg and c.name in ("truncate", "drain", "split_off", "resize_with") and "field:stack" in step.origins(c.args[0], through_calls=("Deref::deref", "DerefMut::deref_mut"))
+            and len(c.args) > 1 and "field:call_state" in step.origins(c.args[1], through_calls="*")]
+    # (b) pop loop: a value pop on the stack that can reach itself again, guarded by a len-vs-saved comparison inside the cycle
+    loop = False
+    for c in step.calls:
+        if c.bb in reg and c.name in ("pop_value", "pop", "ipop_value") and "field:stack" in step.origins(c.args[0], through_calls=()):
+            cyc = step.reachable_after(c.bb) & reg
+            if c.bb in cyc:
+                for x in step.cmp_switches():
+                    if x["bb"] in cyc and x["bb"] in reg:
+                        oa, ob = step.origins(x["a"], through_calls="*"), step.origins(x["b"], through_calls="*")
+                        if ("call:len" in oa | ob) and ("field:call_state" in oa | ob):
+                            loop = True
+    single = [c for c in step.calls if c.bb in reg and c.name in ("swap_remove", "remove") and "field:stack" in step.origins(c.args[0], through_calls=("Deref::deref", "DerefMut::deref_mut"))]
+    rep.check(bool(saved) and (bool(bulk) or loop) and not single, "vm|RestoreSP|discards-all-temporaries", "K7 table",
+              "RestoreSP shrinks the stack down to the saved stack pointer (%s) and keeps the return value" % ("bulk shrink" if bulk else "pop loop guarded by len > saved_sp"),
+              "the VM handler of RestoreSP does not discard every value above the saved stack pointer (no pop loop guarded by the saved pointer, no truncate at it%s): a `return` "
+              "with two or more pending temporaries hands the caller one of the abandoned arguments instead of the return value" % ("; it removes a single element with %s" % single[0].name if single else ""), step.site())
